@@ -22,7 +22,7 @@ class Isolation(Harness):
     def spec(self, inp, out):
         if isinstance(out, Raised): return []
         cl = []
-        if "recv_items" in out:
+        if "recv_items" in out:     # also when the method itself raised: the items must still be untouched
             before = [dict(x) for x in inp["data"].items]
             cl.append(("receiver has the same items", T(len(out["recv_items"]) == len(before))))
             for a, b in zip(out["recv_items"], before):
@@ -123,7 +123,7 @@ def harnesses(tier):
     q = tier == "quick"
     hs = []
     for m, v in (("filter", "function"), ("filter_out", "kw"), ("sort", ""), ("unique", "keys"), ("head", "one"), ("tail", "one"),
-                 ("getitem", "one"), ("copy", "one"), ("reverse", "one"), ("drop_na", ""), ("add", "one"), ("extend", "one"), ("mul", "one")):
+                 ("sort", "ragged"), ("getitem", "one"), ("copy", "one"), ("reverse", "one"), ("drop_na", ""), ("add", "one"), ("extend", "one"), ("mul", "one")):
         hs.append(Isolation(LodOp(m, 2, v)))
     for kind in ("semi_join", "anti_join", "left_join", "inner_join", "full_join"):
         hs.append(Isolation(LodJoin(kind, 1, 2, 2)))
